@@ -18,4 +18,148 @@ theorem kleene_de_morgan (a b : Option Bool) :
     (and3 (ov a) (ov b) >>= not3) = (do or3 (← not3 (ov a)) (← not3 (ov b))) := by
   rcases a with _ | _ | _ <;> rcases b with _ | _ | _ <;> rfl
 
+/-! ## What the reference semantics `Sem` says, operator by operator
+
+The correspondence check compares the engine with `Sem` on generated queries; these theorems pin
+down, for every database, environment and input, what `Sem` itself computes for the relational
+operators, so that "equal to Sem" has a meaning one can read: WHERE keeps exactly the TRUE rows,
+UNION ALL is bag union, LIMIT/OFFSET is the exact slice, DISTINCT keeps one copy of every row, the
+cross product has |L|*|R| rows, ORDER BY permutes. -/
+
+instance : LawfulBEq Value where
+  rfl := by
+    intro a
+    cases a with
+    | null => rfl
+    | int i => show (decide (i = i)) = true; simp
+    | bool b => cases b <;> rfl
+    | str s => show (decide (s = s)) = true; simp
+  eq_of_beq := by
+    intro a b h
+    cases a <;> cases b <;>
+      first
+        | rfl
+        | exact absurd (show false = true from h) (by decide)
+        | exact congrArg _ (of_decide_eq_true h)
+
+theorem beq_bool_true (c : Value) : (c == Value.bool true) = true ↔ c = .bool true := by simp
+
+/-- TRUE, and nothing else (not NULL, not FALSE, not an error), lets a row through. -/
+def passes (x : Except Err Value) : Bool :=
+  match x with
+  | .ok v => v == .bool true
+  | .error _ => false
+
+/-- The row-wise step of `filterRows`. -/
+def keepRow (db : Db) (f : Nat) (env : List Row) (p : Expr) (r : Row) : Except Err (Option Row) := do
+  let c ← evalE db f env r p
+  pure (if c == .bool true then some r else none)
+
+theorem filterRows_eq (db : Db) (f : Nat) (env : List Row) (p : Expr) (rs : List Row) :
+    filterRows db (f + 1) env p rs = rs.filterMapM (keepRow db f env p) := rfl
+
+/-- **WHERE keeps exactly the rows whose predicate is TRUE**: when filtering succeeds, the output is
+the input filtered by "the predicate evaluates to TRUE" (order and multiplicity preserved; NULL and
+FALSE rows are dropped), and no row's predicate raised an error. -/
+theorem filterRows_spec (db : Db) (f : Nat) (env : List Row) (p : Expr) (rs out : List Row)
+    (h : filterRows db (f + 1) env p rs = .ok out) :
+    out = rs.filter (fun r => passes (evalE db f env r p)) ∧ ∀ r ∈ rs, ∃ v, evalE db f env r p = .ok v := by
+  rw [filterRows_eq] at h
+  induction rs generalizing out with
+  | nil =>
+    simp only [List.filterMapM_nil, pure, Except.pure, Except.ok.injEq] at h
+    subst h; simp
+  | cons r rs ih =>
+    rw [List.filterMapM_cons] at h
+    cases hc : evalE db f env r p with
+    | error e => simp [keepRow, hc, bind, Except.bind] at h
+    | ok c =>
+      cases hrest : List.filterMapM (keepRow db f env p) rs with
+      | error e =>
+        by_cases ht : (c == Value.bool true) = true <;>
+          simp [keepRow, hc, hrest, ht, bind, Except.bind, pure, Except.pure] at h
+      | ok rest =>
+        have hih := ih rest hrest
+        have hall : ∀ x ∈ r :: rs, ∃ v, evalE db f env x p = .ok v := by
+          intro x hx
+          rcases List.mem_cons.mp hx with h1 | h2
+          · exact ⟨c, h1 ▸ hc⟩
+          · exact hih.2 x h2
+        by_cases ht : (c == Value.bool true) = true
+        · simp only [keepRow, hc, hrest, ht, bind, Except.bind, pure, Except.pure, if_true, Except.ok.injEq] at h
+          subst h
+          exact ⟨by simp [List.filter_cons, passes, hc, (beq_iff_eq.mp ht), hih.1], hall⟩
+        · have hf : (c == Value.bool true) = false := by simpa using ht
+          simp only [keepRow, hc, hrest, hf, bind, Except.bind, pure, Except.pure, Bool.false_eq_true, if_false, Except.ok.injEq] at h
+          subst h
+          exact ⟨by simp [List.filter_cons, passes, hc, hf, hih.1], hall⟩
+
+/-- A filter node is "evaluate the input, then keep the TRUE rows". -/
+theorem evalQ_filter (db : Db) (f : Nat) (env : List Row) (p : Expr) (q : Query) :
+    evalQ db (f + 1) env (.filter p q) = (do let rs ← evalQ db f env q; filterRows db f env p rs) := by
+  simp [evalQ]
+
+/-- UNION ALL is bag union: the concatenation of both results (every row with its multiplicity). -/
+theorem evalQ_union_all (db : Db) (f : Nat) (env : List Row) (l r : Query) (a b : List Row)
+    (ha : evalQ db f env l = .ok a) (hb : evalQ db f env r = .ok b) :
+    evalQ db (f + 1) env (.union true l r) = .ok (a ++ b) := by
+  simp [evalQ, ha, hb, bind, Except.bind, pure, Except.pure]
+
+/-- LIMIT n OFFSET m is the exact slice of its input. -/
+theorem evalQ_limit (db : Db) (f : Nat) (env : List Row) (n off : Nat) (q : Query) (rs : List Row)
+    (h : evalQ db f env q = .ok rs) : evalQ db (f + 1) env (.limit n off q) = .ok ((rs.drop off).take n) := by
+  simp [evalQ, h, bind, Except.bind, pure, Except.pure]
+
+/-- DISTINCT keeps exactly one copy of every row that occurs. -/
+theorem mem_dedup (rs : List Row) (r : Row) : r ∈ dedup rs ↔ r ∈ rs := by
+  induction rs with
+  | nil => simp [dedup]
+  | cons x xs ih =>
+    simp only [dedup, List.mem_cons, List.mem_filter, ih]
+    constructor
+    · rintro (h | ⟨h, _⟩)
+      · exact Or.inl h
+      · exact Or.inr h
+    · rintro (h | h)
+      · exact Or.inl h
+      · by_cases hx : r = x
+        · exact Or.inl hx
+        · exact Or.inr ⟨h, by simp [rowEq, hx]⟩
+
+theorem dedup_nodup (rs : List Row) : (dedup rs).Nodup := by
+  induction rs with
+  | nil => simp [dedup]
+  | cons x xs ih =>
+    simp only [dedup]
+    refine List.nodup_cons.mpr ⟨?_, List.Nodup.sublist List.filter_sublist ih⟩
+    intro h
+    have := (List.mem_filter.mp h).2
+    simp [rowEq] at this
+
+/-- The cross product has |L| * |R| rows. -/
+theorem cross_join_length (db : Db) (f : Nat) (env : List Row) (l r : Query) (a b : List Row) (on : Expr)
+    (ha : evalQ db f env l = .ok a) (hb : evalQ db f env r = .ok b) :
+    ∃ out, evalQ db (f + 1) env (.join .cross on l r) = .ok out ∧ out.length = a.length * b.length := by
+  refine ⟨a.flatMap fun x => b.map fun y => x ++ y, by simp [evalQ, ha, hb, bind, Except.bind, pure, Except.pure], ?_⟩
+  clear ha
+  induction a with
+  | nil => simp
+  | cons x xs ih => rw [List.flatMap_cons, List.length_append, ih]; simp [Nat.succ_mul, Nat.add_comm]
+
+/-- ORDER BY returns a permutation of its input (the stable insertion sort of `Sem`). -/
+theorem sortBy_perm {α : Type} (cmp : α → α → Ordering) (xs : List α) : (sortBy cmp xs).Perm xs := by
+  have hins : ∀ (x : α) (l : List α), (insertBy cmp x l).Perm (x :: l) := by
+    intro x l
+    induction l with
+    | nil => simp [insertBy]
+    | cons y ys ih =>
+      simp only [insertBy]
+      split
+      · exact List.Perm.refl _
+      · exact (List.Perm.cons y ih).trans (List.Perm.swap x y ys)
+  unfold sortBy
+  induction xs with
+  | nil => simp
+  | cons x xs ih => exact (hins x _).trans (List.Perm.cons x ih)
+
 end GlareModel.Props.C01
